@@ -21,7 +21,8 @@ RULE = ("seeded random record lists with ids repeated 1-5 times (adjacent and in
         "ids; non-trivial = some id occurs more than once; distinct = hash of the input list")
 REQUIRED = ["contract:CVR.merge_cvrs", "merge_checked", "merge_conflict_expected", "merged_with_pool_true",
             "merged_with_pool_false", "merged_phantom_mixed", "raire_checked", "raire_file_checked",
-            "later_record_overrides_contest", "lists_whose_records_share_votes_objects"]
+            "later_record_overrides_contest", "lists_whose_records_share_votes_objects",
+            "raire_lines_where_a_candidate_shares_its_name_with_the_contest_or_ballot"]
 ASSUMPTIONS = ["tally-pool conflict = two different non-None labels for one id (None is 'unknown')"]
 N_CASES = {"quick": 80000, "thorough": 640000}
 
@@ -152,7 +153,13 @@ def gen_raire(rng):
     ncon = rng.randint(1, 3) if rng.random() < 0.9 else rng.choice((10, 12, 25))
     cons = [f"{100 + j}" for j in range(ncon)]
     cands = {c: [str(rng.randint(1, 9) * 10 + k) for k in range(rng.randint(2, 5))] for c in cons}
-    if rng.random() < 0.3:
+    small = ncon <= 3 and rng.random() < 0.25
+    if small:
+        # contests, candidates and ballots numbered from 1, each in its own name space: the same token ("1", "2") names a
+        # contest, a candidate and a ballot
+        cons = [str(j + 1) for j in range(ncon)]
+        cands = {c: [str(k + 1) for k in range(rng.randint(2, 5))] for c in cons}
+    elif rng.random() < 0.3:
         # the format is CSV: names may be quoted and contain commas or quotes
         for c in cons:
             cands[c] = [rng.choice(("Smith, John", "O\"Neil", "Lee", "Ng, A.", "van der Berg", "X Y")) + str(k) for k in range(len(cands[c]))]
@@ -160,7 +167,7 @@ def gen_raire(rng):
     for c in cons:
         rows.append(["Contest", c, str(len(cands[c]))] + cands[c] + ["winner", cands[c][0]])
     nb = rng.randint(0, 12)
-    bids = [f"1_{rng.randint(1, 3)}_{j}" for j in range(nb)]
+    bids = [str(j + 1) for j in range(nb)] if small else [f"1_{rng.randint(1, 3)}_{j}" for j in range(nb)]
     lines = []
     for b in bids:
         for c in rng.sample(cons, rng.randint(1, min(ncon, 3))):
@@ -272,6 +279,8 @@ def run_case(case, rec):
                 return
             cvrs = res[0]
         rec.count("raire_checked")
+        if any(r[0] in r[2:] or r[1] in r[2:] for r in rows[1 + int(rows[0][0]):]):
+            rec.count("raire_lines_where_a_candidate_shares_its_name_with_the_contest_or_ballot")
         got = [(c.id, c.votes) for c in cvrs]
         if [g[0] for g in got] != [w[0] for w in want]:
             rec.violation("c18.raire", "ballot_ids_wrong", {"got": [g[0] for g in got], "want": [w[0] for w in want]})
